@@ -388,6 +388,8 @@ package container
 //@   assigns M.nm, M.m_src, M.m_tgt, M.m_type, M.m_flags, M.m_data, M.nrm, M.rm_tgt, M.rm_flags, M.root_ro
 //@   ensures M.nrm == old(M.nrm) && M.root_ro == old(M.root_ro) && old(M.nm) <= M.nm && M.nm <= old(M.nm) + 1
 //@   callsite syscall.Mount: assert @C05 target == path && flags & 32 == 0
+//@   callsite syscall.Mount when fstype == "tmpfs": assert @C05 flags & 1 == 1
+//@   callsite syscall.Mount when fstype != "tmpfs": assert @C05 source == "/dev/null" && flags & 4096 == 4096
 
 // Order: root tmpfs, chdir into it, every configured mount, then pivot_root into it, lazy unmount and
 // removal of the old root, symlinks, masks, and last a read-only remount of "/".
@@ -483,3 +485,16 @@ package container
 //@   assigns all(c.socket.buff), all(c.socket.Socket.recvBuff), c.socket.recvBuff.Buffer, S._all, FD._all
 //@   callsite (*socket).RecvMsg: assert @C10 @C14 ref_as(e, reply).Error == nil && ref_as(e, reply).ExecReply == nil && len(ref_as(e, reply).BatchErrors) == 0
 //@   loop 0: invariant c == old(c) && c.socket == old(c.socket) && c.socket.Socket == old(c.socket.Socket) && c.socket.Socket.UnixConn == old(c.socket.Socket.UnixConn) && len(c.socket.Socket.recvBuff) == 4096 && c.socket.decoder == old(c.socket.decoder)
+
+// ---- the wait loop of the container init (C09, C12): the status reported for a run is that of the pid the
+// exec handler asked for (wait4 of that pid, retried on EINTR), never of some other child; a reap-all request
+// waits for any child until wait4 fails ----
+//@ func container.(*containerServer).waitLoop props C09 C12
+//@   arith int
+//@   requires c != nil
+//@   assigns W._all, WA.last_pid
+//@   callsite syscall.Wait4 when rusage != nil: assert @C09 pid == WA.last_pid && wstatus != nil && options == 0
+//@   callsite syscall.Wait4 when rusage == nil: assert @C12 pid == -1
+//@   loop 0: invariant c == old(c)
+//@   loop 1: invariant c == old(c) && pid == WA.last_pid && (err != iface(syscall.Errno(4)) ==> W.reaped[WA.last_pid])
+//@   loop 2: invariant c == old(c)
